@@ -10,6 +10,7 @@ package main
 import (
 	"fmt"
 	"go/types"
+	"regexp"
 	"strings"
 )
 
@@ -42,11 +43,22 @@ type Leaf struct {
 func pkgQual(p *types.Package) string { return p.Name() }
 
 func typeKey(t types.Type) string {
-	return sanitize(types.TypeString(types.Unalias(t), pkgQual))
+	return sanitize(typeStr(t))
 }
 
+var reByte = regexp.MustCompile(`(^|[^\w.])byte($|[^\w])`)
+var reRune = regexp.MustCompile(`(^|[^\w.])rune($|[^\w])`)
+
+// typeStr is the canonical name of a type (byte and rune are uint8/int32).
 func typeStr(t types.Type) string {
-	return types.TypeString(types.Unalias(t), pkgQual)
+	s := types.TypeString(types.Unalias(t), pkgQual)
+	for reByte.MatchString(s) {
+		s = reByte.ReplaceAllString(s, "${1}uint8${2}")
+	}
+	for reRune.MatchString(s) {
+		s = reRune.ReplaceAllString(s, "${1}int32${2}")
+	}
+	return s
 }
 
 var layoutCache = map[string][]Leaf{}
